@@ -101,12 +101,37 @@ def as_lambda(ctx, modname, node):
     module-level function whose body is a single `return <expr>` (docstring allowed).  Else None."""
     if isinstance(node, ast.Lambda) and len(node.args.args) == 1:
         return node.args.args[0].arg, node.body
+    def named(nm):
+        fi = ctx.repo.functions.get('%s:%s' % (modname, nm))
+        if fi is None:
+            imp = ctx.repo.module(modname).imports.get(nm)
+            if imp and imp[0] == 'symbol':
+                fi = ctx.repo.functions.get('%s:%s' % (imp[1], imp[2]))
+        return fi
     if isinstance(node, ast.Name):
-        fi = ctx.repo.functions.get('%s:%s' % (modname, node.id))
+        fi = named(node.id)
         if fi is not None and not isinstance(fi.node, ast.Lambda) and len(fi.params) == 1:
             body = [st for st in fi.node.body if not (isinstance(st, ast.Expr) and isinstance(st.value, ast.Constant))]
             if len(body) == 1 and isinstance(body[0], ast.Return) and body[0].value is not None:
                 return fi.params[0], body[0].value
+    # functools.partial(f, a1..ak) over a one-expression function of k+1 parameters: the remaining parameter, and the body with
+    # the bound parameters replaced by the arguments
+    if isinstance(node, ast.Call) and ast.unparse(node.func) in ('partial', 'functools.partial') and node.args and \
+            isinstance(node.args[0], ast.Name) and not node.keywords:
+        fi = named(node.args[0].id)
+        bound = node.args[1:]
+        if fi is not None and not isinstance(fi.node, ast.Lambda) and len(fi.params) == len(bound) + 1:
+            body = [st for st in fi.node.body if not (isinstance(st, ast.Expr) and isinstance(st.value, ast.Constant))]
+            if len(body) == 1 and isinstance(body[0], ast.Return) and body[0].value is not None:
+                from sa.astcopy import clone
+                env = dict(zip(fi.params, bound))
+
+                class S(ast.NodeTransformer):
+                    def visit_Name(self, n):
+                        if isinstance(n.ctx, ast.Load) and n.id in env:
+                            return clone(env[n.id])
+                        return n
+                return fi.params[-1], S().visit(clone(body[0].value))
     return None
 
 
